@@ -8,6 +8,9 @@ let () = main_loop (function
   | ["benc"; h] -> "benc " ^ hex_of_bytes (encode_str (bytes_of_hex h))
   | ["bdec"; h] -> (match decode_str (bytes_of_hex h) with None -> "bdec invalid" | Some o -> "bdec " ^ hex_of_bytes o)
   | ["bdecp"; h] -> "bdecp " ^ hex_of_bytes (b64decode (bytes_of_hex h))
+  | ["pcs"; "esc"; _; h] -> "pcs " ^ hex_of_bytes (escape (bytes_of_hex h))
+  | ["pcs"; "uenc"; _; h] -> "pcs " ^ hex_of_bytes (urlencode (bytes_of_hex h))
+  | ["pcs"; "benc"; _; h] -> "pcs " ^ hex_of_bytes (encode_str (bytes_of_hex h))
   | ["form"; _; _; h] -> "form " ^ hex_of_bytes (escape (bytes_of_hex h))
   | ["esz"; n] -> "esz " ^ string_of_int (int_of_n (encoded_size (n_of_int (int_of_string n))))
   | ["dsz"; n] -> (match decoded_size (n_of_int (int_of_string n)) with None -> "dsz -1" | Some d -> "dsz " ^ string_of_int (int_of_n d))
